@@ -139,6 +139,15 @@ impl<H: Hist> PoolSpec<H> {
         if !same(&it, &expect_it) || !same(&it2, &expect_it) {
             out.push(Violation { sig: "hist.iter:wrong-items".into(), detail: format!("{}: iter() yields {:?}, expected {:?}", H::NAME, it, expect_it) });
         }
+        // Iterator contract: size_hint() bounds the number of items actually yielded (LEN for a
+        // fresh iterator, 0 for an exhausted one)
+        let [fresh, spent] = h.iter_size_hints_();
+        if fresh.0 > n || fresh.1.map_or(false, |u| u < n) || spent.0 > 0 {
+            out.push(Violation {
+                sig: "hist.iter:size-hint-contradicts-items".into(),
+                detail: format!("{}: iter().size_hint() = {:?} for an iterator that yields {n} items; after the last item it is {:?}", H::NAME, fresh, spent),
+            });
+        }
         let r = h.ranges_();
         if bits(&r) != bits(edges) {
             out.push(Violation { sig: "hist.edges:changed".into(), detail: format!("{}: ranges() = {:?}, expected {:?}", H::NAME, r, edges) });
@@ -280,6 +289,25 @@ impl<H: Hist> Spec for PoolSpec<H> {
                         a.add_assign_(&b)
                     }
                 });
+                if ambiguous {
+                    // whichever reading the implementation takes, "merge and += agree with each
+                    // other": the other operation on the same operands must make the same choice
+                    let (mut a2, b2) = (t.h[*i].clone(), t.h[*j].clone());
+                    let r2 = guarded(|| {
+                        if is_merge {
+                            a2.add_assign_(&b2)
+                        } else {
+                            a2.merge_(&b2)
+                        }
+                    });
+                    if r.is_ok() != r2.is_ok() {
+                        t.fault = Some((
+                            "hist.merge-vs-add_assign:disagree-on-signed-zero-edges".into(),
+                            format!("{}: on edges that differ only in the sign of a zero ({:?} / {:?}) {opname} {} but the other operation {}", H::NAME, t.edges[*i], t.edges[*j], if r.is_ok() { "succeeds" } else { "panics" }, if r2.is_ok() { "succeeds" } else { "panics" }),
+                        ));
+                        return t;
+                    }
+                }
                 match (compatible, r) {
                     (true, Ok(())) => {
                         let gj = t.ghost[*j].clone();
